@@ -48,6 +48,21 @@ def layout_program(rnd):
         # a name that first resolves to a function, later to a local injected before the use
         prog = ('def f%d() { 7 }; def g(b) { if (b) { eval("var f%d = 1") }; var t = 0; t }; ' % (n, n)) + "; ".join("print(g(%s))" % c for c in calls)
         return prog, "function-then-local"
+    if k < 0.855:
+        # the same capturing lambda called directly and through an object attribute (the frame gains a `this`), in both orders
+        c1, c2 = rnd.randint(1, 9), rnd.randint(1, 9)
+        lam = rnd.choice(["fun[c](x) { var a = x; a * c }", "fun[c, d](x, y) { var a = x + y; a * c + d }", "fun[c](x) { c + x }"])
+        two = "x, y" in lam
+        arg = lambda v: "%d, %d" % (v, v + 1) if two else str(v)
+        calls = ["print(l(%s))" % arg(5), "print(o.f(%s))" % arg(5), "print(l(%s))" % arg(7), "print(o.f(%s))" % arg(2)]
+        rnd.shuffle(calls)
+        prog = "var c = %d; var d = %d; var l = %s; var o = Dynamic_Object(); o.f = l; " % (c1, c2, lam) + "; ".join(calls)
+        return prog, "lambda-free-and-attribute"
+    if k < 0.86:
+        # a function-valued attribute whose call throws inside try/catch, in a function whose locals were cached by an earlier call
+        prog = ('def use(h, k) { var a = 1; var r = 0; try { r = h.f(k) } catch(e) { r = -1 }; var b = 2; a * 100 + b * 10 + r }; var h = Dynamic_Object(); '
+                'h.f = fun(k) { if (k > 1) { throw(1) }; k }; ' + "; ".join("print(use(h, %d))" % rnd.choice([0, 1, 5, 9]) for _ in range(rnd.randint(3, 5))))
+        return prog, "attribute-call-throws"
     if k < 0.87:
         # a name that resolves to a function at the first evaluation of a call site and to a global object afterwards
         prog = ('def greet%d() { "f" }; def other%d() { 1 }; def run() { greet%d() }; print(run()); global greet%d = fun() { "g" }; print(run()); print(run())' % (n, n, n, n))
@@ -66,6 +81,17 @@ def layout_program(rnd):
     return prog, "lambda-captures"
 
 
+def size_programs(tier):
+    """scopes whose size sits at the boundaries of the hint's fields (slot: 16 bits, remembered positions up to 65535)"""
+    sizes = [(260, [255, 256, 257]), (4200, [4095, 4096, 4099])] + ([(66000, [65535, 65536, 65999])] if tier == "thorough" else [])
+    out = []
+    for n, ks in sizes:
+        decl = "; ".join("var v%d = %d" % (i, i) for i in range(n))
+        for kk in ks:
+            out.append(decl + "; var s = 0; for (var i = 0; i < 3; ++i) { s += v%d }; def rd() { v%d }; s" % (kk, 0))
+    return out
+
+
 def gen(tier, seed):
     rnd = random.Random(seed * 31 + 4)
     n_lay = {"quick": 500, "thorough": 8000}[tier]
@@ -80,7 +106,7 @@ def gen(tier, seed):
     return progs, kinds
 
 
-def judge(c, progs, kinds, source):
+def judge(c, progs, kinds, source, use_model=True):
     on = E.run_impl(progs, "opt")
     off = E.run_impl(progs, "opt", extra=("nohints",))
     # the model is run on the tree its *own* optimizer makes of the unoptimised parse, not on the tree the implementation's optimizer
@@ -89,14 +115,19 @@ def judge(c, progs, kinds, source):
     raw = E.run_impl(progs, "raw")
     evs = E.eval_tables(progs, "opt")
     idx = [i for i in range(len(progs)) if "tree" in off[i]]
-    own = E.run_optimizer_model([raw[i]["tree"] if "tree" in raw[i] else "" for i in idx])
+    own = E.run_optimizer_model([raw[i]["tree"] if "tree" in raw[i] else "" for i in idx]) if use_model else [None] * len(idx)
+    if len(own) != len(idx):
+        raise vlib.BuildError("the optimizer model answered %d of %d trees" % (len(own), len(idx)))
     trees = [o if (o and o.startswith("(")) else off[i]["tree"] for o, i in zip(own, idx)]
     for o, i in zip(own, idx):
         if o and o.startswith("(") and o != off[i]["tree"]:
             c.disagree("optimize_tree(raw tree) vs the implementation's optimised tree", progs[i], off[i]["tree"][:1200], o[:1200])
-    m_on = E.run_model("mech", trees, hints=True, evals=[evs[i] for i in idx])
-    m_off = E.run_model("mech", trees, hints=False, evals=[evs[i] for i in idx])
-    ref = E.run_model("spec", trees, hints=False, evals=[evs[i] for i in idx])
+    if use_model:
+        m_on = E.run_model("mech", trees, hints=True, evals=[evs[i] for i in idx])
+        m_off = E.run_model("mech", trees, hints=False, evals=[evs[i] for i in idx])
+        ref = E.run_model("spec", trees, hints=False, evals=[evs[i] for i in idx])
+    else:       # programs of thousands of declarations: judged on the implementation alone (cache on == cache bypassed)
+        m_on = m_off = ref = [None] * len(trees)
     seen = set()
     for k, i in enumerate(idx):
         c.cov["evaluations"] += 1
@@ -152,6 +183,8 @@ def check(tier, seed):
         c.broken_ties.append(("correspondence", "eval: mechanism model does not build", E.bins().get("mech_err")))
     corpus = E.corpus("C04.txt")
     judge(c, corpus, ["corpus"] * len(corpus), "corpus")
+    sz = size_programs(tier)
+    judge(c, sz, ["scope-size"] * len(sz), "sized", use_model=False)
     progs, kinds = gen(tier, seed)
     on, off = judge(c, progs, kinds, "generated")
     for k in (0, 1, len(progs) - 1):
